@@ -3,6 +3,7 @@ package lib
 import (
 	"fmt"
 	"math/rand"
+	"strings"
 )
 
 // ---- documented atomic constraints, each with witnesses making it classically true / false ----
@@ -309,6 +310,101 @@ func init() {
 				n.Add(pI(i), strs("v", "w")[:1+r.Intn(2)]...)
 			} else if r.Intn(2) == 0 {
 				n.Add(pI(i), strs("v", "w", "x")...)
+			}
+		}},
+	)
+}
+
+func init() {
+	// scale and rarer value shapes: lengths counted in characters (not bytes), non-ASCII patterns, long strings,
+	// negative and beyond-32-bit numbers, many values on one property
+	long := strings.Repeat("abcdefghij", 30)
+	manyVals := func(k int) []Value {
+		out := make([]Value, k)
+		for j := range out {
+			out[j] = StrV(fmt.Sprintf("val%03d", j))
+		}
+		return out
+	}
+	var twelve []string
+	for j := 0; j < 12; j++ {
+		twelve = append(twelve, fmt.Sprintf("val%03d", j*3))
+	}
+	AtomKinds = append(AtomKinds,
+		AtomKind{Name: "minLengthNonAscii", PerValue: true, Constraint: func(i int) []Constraint { return []Constraint{CScalar("minLength", Int(3))} },
+			Assign: func(n *Node, i int, t bool, r *rand.Rand) {
+				if t {
+					n.Add(pI(i), StrV(pick(r, "äöü", "日本語x", "ñandú")))
+				} else {
+					n.Add(pI(i), StrV(pick(r, "äö", "日本", "é")))
+				}
+			}},
+		AtomKind{Name: "maxLengthNonAscii", PerValue: true, Constraint: func(i int) []Constraint { return []Constraint{CScalar("maxLength", Int(2))} },
+			Assign: func(n *Node, i int, t bool, r *rand.Rand) {
+				if t {
+					n.Add(pI(i), StrV(pick(r, "äö", "é", "日本")))
+				} else {
+					n.Add(pI(i), StrV(pick(r, "äöü", "日本語")))
+				}
+			}},
+		AtomKind{Name: "patternNonAscii", PerValue: true, Constraint: func(i int) []Constraint { return []Constraint{CScalar("pattern", Str("^caf[eé]s?$"))} },
+			Assign: func(n *Node, i int, t bool, r *rand.Rand) {
+				if t {
+					n.Add(pI(i), StrV(pick(r, "café", "cafes", "cafés")))
+				} else {
+					n.Add(pI(i), StrV(pick(r, "cafè", "xcafé", "caf")))
+				}
+			}},
+		AtomKind{Name: "inLongString", PerValue: true, Constraint: func(i int) []Constraint { return []Constraint{CList("in", long, "b")} },
+			Assign: func(n *Node, i int, t bool, r *rand.Rand) {
+				if t {
+					n.Add(pI(i), StrV(pick(r, long, "b")))
+				} else {
+					n.Add(pI(i), StrV(pick(r, long[:299], long+"x", "B")))
+				}
+			}},
+		AtomKind{Name: "inNegativeInt", PerValue: true, Constraint: func(i int) []Constraint {
+			return []Constraint{{Key: "in", Value: YSeqOf(Int(-1), Int(0))}}
+		}, Assign: func(n *Node, i int, t bool, r *rand.Rand) {
+			if t {
+				n.Add(pI(i), IntV(pick(r, int64(-1), int64(0))))
+			} else {
+				n.Add(pI(i), IntV(pick(r, int64(1), int64(-10))))
+			}
+		}},
+		AtomKind{Name: "minInclusiveNegative", PerValue: true, Constraint: func(i int) []Constraint { return []Constraint{CScalar("minInclusive", Int(-5))} },
+			Assign: func(n *Node, i int, t bool, r *rand.Rand) {
+				if t {
+					n.Add(pI(i), IntV(pick(r, int64(-5), int64(-4), int64(0))))
+				} else {
+					n.Add(pI(i), IntV(pick(r, int64(-6), int64(-100))))
+				}
+			}},
+		AtomKind{Name: "maxInclusiveBeyond32Bits", PerValue: true, Constraint: func(i int) []Constraint {
+			return []Constraint{CScalar("maxInclusive", RawScalar("2147483648"))}
+		}, Assign: func(n *Node, i int, t bool, r *rand.Rand) {
+			if t {
+				n.Add(pI(i), IntV(pick(r, int64(2147483648), int64(5), int64(-2147483649))))
+			} else {
+				n.Add(pI(i), IntV(pick(r, int64(2147483649), int64(4294967296))))
+			}
+		}},
+		AtomKind{Name: "containsAll12Of40", Constraint: func(i int) []Constraint { return []Constraint{CList("containsAll", twelve...)} },
+			Assign: func(n *Node, i int, t bool, r *rand.Rand) {
+				vals := manyVals(40)
+				if !t {
+					drop := r.Intn(12) * 3
+					vals = append(vals[:drop:drop], vals[drop+1:]...)
+				}
+				n.Add(pI(i), Shuffled(r, vals)...)
+			}},
+		AtomKind{Name: "countRange20To30", Constraint: func(i int) []Constraint {
+			return []Constraint{CScalar("minCount", Int(20)), CScalar("maxCount", Int(30))}
+		}, Assign: func(n *Node, i int, t bool, r *rand.Rand) {
+			if t {
+				n.Add(pI(i), manyVals(pick(r, 20, 25, 30))...)
+			} else {
+				n.Add(pI(i), manyVals(pick(r, 19, 31, 0, 64))...)
 			}
 		}},
 	)
